@@ -118,6 +118,9 @@ var stmtFaults = []stmtFault{
 	{"repeatfnstmt", " q = 1\n inv(q)\n q = z\n inv(q)§", "z != 0", true, false},
 	{"repeatmethod", " q = 1\n y = d.Inv(q)\n q = z\n y = d.Inv(q)§", "z != 0", true, false},
 	{"repeat3", " q = 1\n dd.P.Inv(q)\n q = z\n dd.P.Inv(q)§", "z != 0", true, false},
+	// constructs that fail without a position of their own, on a later line inside a for body
+	{"ifint_infor", " for i = 0; i < 1; i += 1 {\n  y = 1\n  if x {§\n   y = 2\n  }\n }", "false", false, false},
+	{"notint_infor", " for i = 0; i < 1; i += 1 {\n  y = 1\n  if x == 99 {\n   y = 3\n  } else if !x {§\n   y = 2\n  }\n }", "false", false, false},
 }
 
 const c09Lib = `
@@ -570,6 +573,20 @@ func viaEntry(entry string, w *world, text string) error {
 			vnd.Assert(false, "incremental build must succeed")
 		}
 		return engine.NewGengine().Execute(rb, true)
+	case "crlf":
+		// the same text with Windows line ends
+		crlf := ""
+		for k := 0; k < len(text); k++ {
+			if text[k] == '\n' {
+				crlf += "\r"
+			}
+			crlf += text[k : k+1]
+		}
+		rb := builder.NewRuleBuilder(w.dc)
+		if e := rb.BuildRuleFromString(crlf); e != nil {
+			vnd.Assert(false, "build must succeed")
+		}
+		return engine.NewGengine().Execute(rb, true)
 	case "incremental":
 		rb := builder.NewRuleBuilder(w.dc)
 		if e := rb.BuildRuleFromString("rule \"seed\" salience -100 begin\n ev(\"seed\")\nend\n"); e != nil {
@@ -683,7 +700,7 @@ func %s() {
 		if !(fc.id == "zerodiv_assign" || fc.id == "strless_if" || fc.id == "intand_elseif" || fc.id == "boom_forbody" || fc.id == "nilmapwrite" || fc.id == "zerodiv_conc" || fc.id == "rangeint") {
 			continue
 		}
-		for _, entry := range []string{"incremental", "poolctor", "poolupdate", "poolincremental", "resend", "poolresend", "incremental-long"} {
+		for _, entry := range []string{"incremental", "poolctor", "poolupdate", "poolincremental", "resend", "poolresend", "incremental-long", "crlf"} {
 			name := "E_" + fc.id + "_" + strings.ReplaceAll(entry, "-", "_")
 			lead := "\n   \n\n"
 			shift := 3
